@@ -38,6 +38,38 @@ def lean_ops(case):
     return sc.api_ops(case)
 
 
+def _after_smoothed_reads(case, ctx, findings):
+    """percentages are 100 x proportions also AFTER the smoothed variants were read on the same partition
+    (categorical-date columns with a smoother transform): the plain outputs must not pick up smoothed values."""
+    import copy
+    vars_, survey = sc.load(case)
+    kinds = sc.kinds_of(vars_)
+    if len(kinds) < 2 or vars_[-1].kind != "cat_date" or len(vars_[-1].valid_cat_pos) < 2:
+        return
+    ctx.count("smoothed_read_order_cases")
+    tr = {"columns_dimension": {"smoother": {"function": "one_sided_moving_avg", "window": 2}}}
+    for first in (True, False):
+        cube = sc.make_cube(case, transforms=copy.deepcopy(tr))
+        for k, part in enumerate(cube.partitions):
+            if first:
+                for name in ("smoothed_column_percentages", "smoothed_column_proportions", "smoothed_column_index"):
+                    common.call_impl(lambda: getattr(part, name))
+            cp = common.call_impl(lambda: part.column_proportions)
+            cpc = common.call_impl(lambda: part.column_percentages)
+            if not first:
+                for name in ("smoothed_column_percentages", "smoothed_column_proportions"):
+                    common.call_impl(lambda: getattr(part, name))
+                cp2 = common.call_impl(lambda: part.column_proportions)
+                sc.compare(findings, "spec", "slice.column_proportions.changed-by-smoothed-read", cp2, cp, "partition %d" % k)
+            if isinstance(cp, list) and isinstance(cpc, list):
+                exp = [[100 * x for x in r] for r in cp]
+                sc.compare(findings, "spec", "slice.column_percentages.x100-after-smoothed-read" if first else
+                           "slice.column_percentages.x100", cpc, exp, "partition %d (smoothed variants read %s)" % (k, "first" if first else "after"))
+            plain = sc.make_cube(case).partitions[k]
+            sc.compare(findings, "spec", "slice.column_proportions.smoother-transform-changes-plain-output", cp,
+                       common.call_impl(lambda: plain.column_proportions), "partition %d" % k)
+
+
 def _with_subtotals(case, ctx, findings):
     """the same laws on INSERTED (non-difference) subtotal cells, judged on the implementation's own counts and
     bases (whose respondent-level meaning is C02's / C04's business): proportion = count / base, within [0,1],
@@ -179,10 +211,8 @@ def evaluate(case, louts, ctx):
                 findings.append({"kind": "spec", "locus": "strand.table_proportions.sum-to-one", "detail": repr(impl)})
         if any(0 < x < 1 for x in expect if not math.isnan(x)):
             key = ("x".join(kinds), tuple(counts), len(survey))
-    try:
-        _with_subtotals(case, ctx, findings)
-    except Exception as e:  # noqa
-        raise
+    _with_subtotals(case, ctx, findings)
+    _after_smoothed_reads(case, ctx, findings)
     return findings, key
 
 
